@@ -1,4 +1,1016 @@
-//! c09 check (under construction)
+//! C09 — the SNAP tunnel carries traffic only for identities authorised at that moment.
+//!
+//! Explicit-state exploration (BFS over event histories, canonical-state de-duplication) in which
+//! every transition runs the REAL code: `snap_tun::server::SnapTunServer` (sans-IO), the real
+//! `snap_control::server::identity_registry::IdentityRegistry` and real `ana_gotatun::noise::Tunn`
+//! clients (one per (address, identity)). The only substituted piece is the 3-line
+//! `impl SnapTunAuthorization for IdentityRegistry` glue: [`Authz`] forwards to that very impl but
+//! with `base + logical clock` instead of the server's `Instant::now()`, so time belongs to the
+//! explorer, and it records which identity the server asked about.
+//!
+//! Nothing random or wall-clock dependent enters a state key or a verdict: ciphertexts, ephemeral
+//! keys and timestamps are never inspected, only accept/reject outcomes and decrypted plaintext.
+//! Every verdict has the form "a payload flowed although the reference says unauthorised / to the
+//! wrong identity" or "registry answer differs from the reference at logical time t"; a refused
+//! handshake or refused packet is never a violation (it is counted, and where it makes the abstract
+//! state uncertain the branch is cut and reported as not exhaustive).
+use std::{
+    collections::{BTreeMap, VecDeque},
+    net::SocketAddr,
+    sync::{
+        Arc, Mutex,
+        atomic::{AtomicU64, Ordering},
+    },
+    time::{Duration, Instant},
+};
+
+use ana_gotatun::{
+    noise::{Tunn, TunnResult, rate_limiter::RateLimiter},
+    packet::{Packet, WgKind},
+    x25519,
+};
+use snap_control::server::identity_registry::IdentityRegistry;
+use snap_tun::server::{HandleIncomingPacketResult, SnapTunAuthorization, SnapTunServer};
+use vpc::{Value, json, rayon::prelude::*};
+
+const IDS: [&str; 3] = ["A", "B", "C"];
+const KEYS: [&str; 2] = ["K1", "K2"];
+const ADDRS: [&str; 2] = ["X", "Y"];
+const LIVES: [u32; 2] = [1, 3];
+/// Never reached: with a fresh server + rate limiter per replayed history at most `depth`
+/// handshakes are ever counted, so the under-load/cookie path cannot influence outcomes.
+const RATE_LIMIT: u64 = 1 << 40;
+
+// ---------------------------------------------------------------------------------------------
+// Events
+// ---------------------------------------------------------------------------------------------
+
+#[derive(Clone, Copy, PartialEq, Eq, Debug)]
+enum Ev {
+    Reg { k: usize, i: usize, l: u32 },
+    Tick,
+    Purge,
+    Hs { a: usize, i: usize },
+    In { a: usize },
+    Out { a: usize },
+    Timers,
+}
+
+impl Ev {
+    fn text(&self) -> String {
+        match *self {
+            Ev::Reg { k, i, l } => format!("Reg {} {} {}", KEYS[k], IDS[i], l),
+            Ev::Tick => "Tick".into(),
+            Ev::Purge => "Purge".into(),
+            Ev::Hs { a, i } => format!("Hs {} {}", ADDRS[a], IDS[i]),
+            Ev::In { a } => format!("In {}", ADDRS[a]),
+            Ev::Out { a } => format!("Out {}", ADDRS[a]),
+            Ev::Timers => "Timers".into(),
+        }
+    }
+    fn parse(s: &str) -> Option<Ev> {
+        let t: Vec<&str> = s.split_whitespace().collect();
+        let pos = |set: &[&str], x: &str| set.iter().position(|y| *y == x);
+        Some(match t.as_slice() {
+            ["Reg", k, i, l] => Ev::Reg { k: pos(&KEYS, k)?, i: pos(&IDS, i)?, l: l.parse().ok()? },
+            ["Tick"] => Ev::Tick,
+            ["Purge"] => Ev::Purge,
+            ["Hs", a, i] => Ev::Hs { a: pos(&ADDRS, a)?, i: pos(&IDS, i)? },
+            ["In", a] => Ev::In { a: pos(&ADDRS, a)? },
+            ["Out", a] => Ev::Out { a: pos(&ADDRS, a)? },
+            ["Timers"] => Ev::Timers,
+            _ => return None,
+        })
+    }
+}
+
+fn all_events() -> Vec<Ev> {
+    let mut v = vec![];
+    for k in 0..KEYS.len() {
+        for i in 0..IDS.len() {
+            for l in LIVES {
+                v.push(Ev::Reg { k, i, l });
+            }
+        }
+    }
+    v.push(Ev::Tick);
+    v.push(Ev::Purge);
+    for a in 0..ADDRS.len() {
+        for i in 0..IDS.len() {
+            v.push(Ev::Hs { a, i });
+        }
+    }
+    for a in 0..ADDRS.len() {
+        v.push(Ev::In { a });
+    }
+    for a in 0..ADDRS.len() {
+        v.push(Ev::Out { a });
+    }
+    v.push(Ev::Timers);
+    v
+}
+
+fn hist_text(h: &[Ev]) -> Vec<String> {
+    h.iter().map(Ev::text).collect()
+}
+
+// ---------------------------------------------------------------------------------------------
+// Reference model (independent of the subject): the registry as two plain maps, plus the
+// harness' bookkeeping of who owns the tunnel of an address and which clients hold a session.
+// ---------------------------------------------------------------------------------------------
+
+#[derive(Clone, Copy, PartialEq, Eq, Debug)]
+enum Loss {
+    Never,
+    Superseded,
+    Purged,
+}
+
+#[derive(Clone)]
+struct Ref {
+    now: u32,
+    /// token key -> identity ("at most one identity per key")
+    key_to_id: BTreeMap<usize, usize>,
+    /// identity -> expiry, logical seconds ("at most one key per identity": every identity in here
+    /// is the image of exactly one key)
+    expiry: BTreeMap<usize, u32>,
+    /// diagnostic only (never in keys/verdict decisions): why an identity has no entry
+    loss: [Loss; 3],
+    /// per address: identity whose handshake created the tunnel (first completed handshake)
+    owner: [Option<usize>; 2],
+    /// per (address, identity): 0 no client, 1 handshake attempted, 2 WireGuard session established
+    client: [[u8; 3]; 2],
+}
+
+impl Ref {
+    fn new() -> Ref {
+        Ref { now: 0, key_to_id: BTreeMap::new(), expiry: BTreeMap::new(), loss: [Loss::Never; 3], owner: [None; 2], client: [[0; 3]; 2] }
+    }
+    /// authorised iff registered and expiry strictly after now
+    fn auth(&self, i: usize) -> bool {
+        matches!(self.expiry.get(&i), Some(e) if *e > self.now)
+    }
+    fn why_unauth(&self, i: usize) -> &'static str {
+        match self.expiry.get(&i) {
+            Some(e) if *e == self.now => "at-expiry-instant",
+            Some(e) if *e < self.now => "after-expiry",
+            Some(_) => "authorised",
+            None => match self.loss[i] {
+                Loss::Never => "never-registered",
+                Loss::Superseded => "superseded",
+                Loss::Purged => "purged-after-expiry",
+            },
+        }
+    }
+    /// newest registration wins; returns (class, identity-had-an-entry-before)
+    fn reg(&mut self, k: usize, i: usize, l: u32) -> (&'static str, bool) {
+        let had = self.expiry.contains_key(&i);
+        // one key per identity: the identity leaves whatever other key it was under
+        let old_key = self.key_to_id.iter().find(|(_, v)| **v == i).map(|(kk, _)| *kk);
+        let mut class = if had { "reg:refresh" } else { "reg:new" };
+        if let Some(ok) = old_key {
+            if ok != k {
+                self.key_to_id.remove(&ok);
+                class = "reg:identity-moves-key";
+            }
+        }
+        // one identity per key: whoever was under this key is superseded
+        if let Some(prev) = self.key_to_id.get(&k).copied() {
+            if prev != i {
+                self.expiry.remove(&prev);
+                self.loss[prev] = Loss::Superseded;
+                class = if class == "reg:identity-moves-key" { "reg:moves-key+supersedes" } else { "reg:supersedes" };
+            }
+        }
+        self.key_to_id.insert(k, i);
+        self.expiry.insert(i, self.now + l);
+        (class, had)
+    }
+    fn purge(&mut self) -> usize {
+        let gone: Vec<usize> = self.expiry.iter().filter(|(_, e)| **e <= self.now).map(|(i, _)| *i).collect();
+        for i in &gone {
+            self.expiry.remove(i);
+            self.loss[*i] = Loss::Purged;
+            self.key_to_id.retain(|_, v| v != i);
+        }
+        gone.len()
+    }
+    /// Canonical state key. Relative lifetimes only (absolute time is irrelevant), no ciphertext,
+    /// no counters.
+    fn key(&self) -> String {
+        let mut s = String::new();
+        for k in 0..KEYS.len() {
+            s.push_str(&format!("{}={} ", KEYS[k], self.key_to_id.get(&k).map_or("-", |i| IDS[*i])));
+        }
+        s.push('|');
+        for i in 0..IDS.len() {
+            match self.expiry.get(&i) {
+                Some(e) => s.push_str(&format!(" {}:{}", IDS[i], e.saturating_sub(self.now))),
+                None => s.push_str(&format!(" {}:-", IDS[i])),
+            }
+        }
+        for a in 0..ADDRS.len() {
+            s.push_str(&format!(" | {}:owner={} clients={}{}{}", ADDRS[a], self.owner[a].map_or("-", |i| IDS[i]), self.client[a][0], self.client[a][1], self.client[a][2]));
+        }
+        s
+    }
+}
+
+// ---------------------------------------------------------------------------------------------
+// The system under test
+// ---------------------------------------------------------------------------------------------
+
+struct Consts {
+    id_secret: [[u8; 32]; 3],
+    id_pub: [[u8; 32]; 3],
+    server_secret: [u8; 32],
+    server_pub: x25519::PublicKey,
+    addrs: [SocketAddr; 2],
+    server_addr: SocketAddr,
+}
+
+impl Consts {
+    fn new() -> Consts {
+        let id_secret = [[0xA1u8; 32], [0xB2u8; 32], [0xC3u8; 32]];
+        let id_pub = id_secret.map(|s| *x25519::PublicKey::from(&x25519::StaticSecret::from(s)).as_bytes());
+        let server_secret = [0x02u8; 32];
+        let server_pub = x25519::PublicKey::from(&x25519::StaticSecret::from(server_secret));
+        Consts {
+            id_secret,
+            id_pub,
+            server_secret,
+            server_pub,
+            addrs: ["192.168.1.1:1234".parse().unwrap(), "192.168.1.2:4321".parse().unwrap()],
+            server_addr: "10.0.0.1:5001".parse().unwrap(),
+        }
+    }
+    fn label(&self, public: &[u8; 32]) -> String {
+        match self.id_pub.iter().position(|p| p == public) {
+            Some(i) => IDS[i].to_string(),
+            None => format!("?{}", vpc::hex(&public[..4])),
+        }
+    }
+}
+
+/// The authorization adapter: the REAL registry decides, at the explorer's logical time.
+struct Authz {
+    registry: Arc<IdentityRegistry>,
+    base: Instant,
+    clock: AtomicU64,
+    asked: Mutex<Vec<[u8; 32]>>,
+}
+
+impl SnapTunAuthorization for Authz {
+    /// the identity the server asked about (lets the oracle check attribution of `Forwarded`)
+    type SessionData = [u8; 32];
+
+    fn is_authorized(&self, _servers_wall_clock: Instant, identity: &[u8; 32]) -> Option<Arc<[u8; 32]>> {
+        self.asked.lock().unwrap().push(*identity);
+        let now = self.base + Duration::from_secs(self.clock.load(Ordering::SeqCst));
+        // the production glue (`impl SnapTunAuthorization for IdentityRegistry`)
+        <IdentityRegistry as SnapTunAuthorization>::is_authorized(&self.registry, now, identity).map(|_| Arc::new(*identity))
+    }
+}
+
+/// What one step did, in schedule-independent terms.
+#[derive(Default)]
+struct StepOut {
+    /// deterministic description of everything observed (used for the de-dup validation)
+    obs: Vec<String>,
+    /// coarse outcome classes (evidence counters)
+    classes: Vec<String>,
+    /// (narrow class, text)
+    viols: Vec<(String, String)>,
+    /// the abstract state after this step is uncertain (legal but unexpected refusal): cut branch
+    diverged: Option<String>,
+}
+
+impl StepOut {
+    fn viol(&mut self, class: String, what: String) {
+        if !self.viols.iter().any(|(c, _)| *c == class) {
+            self.viols.push((class, what));
+        }
+    }
+}
+
+struct Sys<'c> {
+    c: &'c Consts,
+    registry: Arc<IdentityRegistry>,
+    authz: Arc<Authz>,
+    server: SnapTunServer<Authz>,
+    clients: [[Option<Tunn>; 3]; 2],
+    client_rl: Arc<RateLimiter>,
+    seq: u32,
+    rf: Ref,
+}
+
+fn tunn_err(r: &TunnResult) -> String {
+    match r {
+        TunnResult::Done => "Done".into(),
+        TunnResult::Err(e) => format!("Err({e:?})"),
+        TunnResult::WriteToNetwork(k) => format!("WriteToNetwork({k:?})"),
+        TunnResult::WriteToTunnel(p) => format!("WriteToTunnel({}B)", p.len()),
+    }
+}
+
+enum SrvIn {
+    Forwarded { plaintext: Vec<u8>, session: [u8; 32] },
+    Other(String),
+    Panic(String),
+}
+
+impl<'c> Sys<'c> {
+    fn new(c: &'c Consts) -> Sys<'c> {
+        let registry = Arc::new(IdentityRegistry::new());
+        let authz = Arc::new(Authz { registry: registry.clone(), base: Instant::now(), clock: AtomicU64::new(0), asked: Mutex::new(vec![]) });
+        let rl = Arc::new(RateLimiter::new(&c.server_pub, RATE_LIMIT));
+        let server = SnapTunServer::new(x25519::StaticSecret::from(c.server_secret), rl, authz.clone());
+        // clients never verify cookies; their limiter is only a constructor argument of Tunn
+        let client_rl = Arc::new(RateLimiter::new(&c.server_pub, RATE_LIMIT));
+        Sys { c, registry, authz, server, clients: Default::default(), client_rl, seq: 0, rf: Ref::new() }
+    }
+
+    fn real_now(&self) -> Instant {
+        self.authz.base + Duration::from_secs(self.rf.now as u64)
+    }
+
+    fn client(&mut self, a: usize, i: usize) -> &mut Tunn {
+        if self.clients[a][i].is_none() {
+            let t = Tunn::new(
+                x25519::StaticSecret::from(self.c.id_secret[i]),
+                self.c.server_pub,
+                None,
+                None,
+                (1 + a * 3 + i) as u32,
+                self.client_rl.clone(),
+                self.c.server_addr,
+            );
+            self.clients[a][i] = Some(t);
+        }
+        self.clients[a][i].as_mut().unwrap()
+    }
+
+    fn take_asked(&self) -> Vec<[u8; 32]> {
+        std::mem::take(&mut *self.authz.asked.lock().unwrap())
+    }
+    fn asked_text(&self, asked: &[[u8; 32]]) -> String {
+        asked.iter().map(|p| self.c.label(p)).collect::<Vec<_>>().join(",")
+    }
+
+    /// One packet from address `a` into the real server.
+    fn server_in(&mut self, a: usize, pkt: Packet, q: &mut VecDeque<WgKind>) -> SrvIn {
+        let from = self.c.addrs[a];
+        let server = &mut self.server;
+        match vpc::catch(|| server.handle_incoming_packet_with_session(pkt, from, q)) {
+            Err(msg) => SrvIn::Panic(format!("{msg} @{}", vpc::last_panic_location())),
+            Ok(HandleIncomingPacketResult::Forwarded { packet, session_data, .. }) => SrvIn::Forwarded { plaintext: packet.to_vec(), session: *session_data },
+            Ok(HandleIncomingPacketResult::Result { result }) => SrvIn::Other(tunn_err(&result)),
+        }
+    }
+
+    // ----- oracles on payload flows -----------------------------------------------------------
+
+    /// A payload sent by client (a, j) was handed to the SCION side.
+    fn check_inbound_flow(&self, out: &mut StepOut, a: usize, j: usize, sent: Option<&[u8]>, plaintext: &[u8], session: &[u8; 32], asked: &[[u8; 32]]) {
+        let rf = &self.rf;
+        if !rf.auth(j) {
+            out.viol(
+                format!("inbound-delivered-while-unauthorised:{}", rf.why_unauth(j)),
+                format!("payload of identity {} from {} was Forwarded at t={} although the identity is not authorised ({})", IDS[j], ADDRS[a], rf.now, rf.why_unauth(j)),
+            );
+        }
+        if let Some(sent) = sent {
+            if sent != plaintext {
+                out.viol("inbound-plaintext-differs-from-sent".into(), format!("Forwarded plaintext {:?} is not what client {}@{} encrypted", String::from_utf8_lossy(plaintext), IDS[j], ADDRS[a]));
+            }
+        }
+        if *session != self.c.id_pub[j] {
+            out.viol(
+                "inbound-attributed-to-other-identity".into(),
+                format!("payload authenticated by identity {} at {} was Forwarded with the session of identity {}", IDS[j], ADDRS[a], self.c.label(session)),
+            );
+        }
+        if asked.iter().any(|p| *p != self.c.id_pub[j]) {
+            // the authorisation that admitted this payload was (also) evaluated for someone else
+            if asked.last() != Some(&self.c.id_pub[j]) {
+                out.viol(
+                    "inbound-authorised-by-other-identity".into(),
+                    format!("payload authenticated by identity {} at {} was admitted on an authorisation query for [{}]", IDS[j], ADDRS[a], self.asked_text(asked)),
+                );
+            }
+        }
+    }
+
+    /// Ciphertext carrying a non-empty payload was produced towards address `a`; `recipients` are
+    /// the clients that could decrypt it.
+    fn check_outbound_flow(&self, out: &mut StepOut, a: usize, recipients: &[(usize, Vec<u8>)], sent: Option<&[u8]>, session: Option<&[u8; 32]>) {
+        let rf = &self.rf;
+        let mut subjects: Vec<usize> = recipients.iter().map(|(r, _)| *r).collect();
+        if subjects.is_empty() {
+            // nobody could decrypt: judge by the tunnel's owner / the identity the server named
+            if let Some(o) = rf.owner[a] {
+                subjects.push(o);
+            } else if let Some(s) = session.and_then(|s| self.c.id_pub.iter().position(|p| p == s)) {
+                subjects.push(s);
+            }
+        }
+        for r in subjects {
+            if !rf.auth(r) {
+                out.viol(
+                    format!("outbound-encrypted-while-unauthorised:{}", rf.why_unauth(r)),
+                    format!("a payload was encrypted towards {} for identity {} at t={} although the identity is not authorised ({})", ADDRS[a], IDS[r], rf.now, rf.why_unauth(r)),
+                );
+            }
+            if let Some(s) = session {
+                if *s != self.c.id_pub[r] {
+                    out.viol(
+                        "outbound-attributed-to-other-identity".into(),
+                        format!("ciphertext towards {} decrypts under identity {} but was accounted to the session of {}", ADDRS[a], IDS[r], self.c.label(s)),
+                    );
+                }
+            }
+        }
+        if let Some(sent) = sent {
+            for (r, pt) in recipients {
+                if pt != sent {
+                    out.viol("outbound-plaintext-differs-from-sent".into(), format!("client {}@{} decrypted {:?}", IDS[*r], ADDRS[a], String::from_utf8_lossy(pt)));
+                }
+            }
+        }
+    }
+
+    /// Deliver one server->network packet for address `a` to the given clients. Returns, per
+    /// client, what it made of it; client replies are fed back into the server (from `a`).
+    fn deliver(&mut self, out: &mut StepOut, a: usize, targets: &[usize], pkt: WgKind, q: &mut VecDeque<WgKind>, sent: Option<&[u8]>, session: Option<&[u8; 32]>) -> (String, bool) {
+        let kind = format!("{pkt:?}");
+        let bytes: Vec<u8> = Packet::from(pkt).to_vec();
+        let mut recipients = vec![];
+        let mut desc = vec![];
+        let mut resp_completed = false;
+        for &j in targets {
+            let Some(client) = self.clients[a][j].as_mut() else { continue };
+            let Ok(wg) = Packet::copy_from(&bytes[..]).try_into_wg() else { continue };
+            let is_resp = matches!(wg, WgKind::HandshakeResp(_));
+            match vpc::catch(|| client.handle_incoming_packet(wg)) {
+                Err(m) => desc.push(format!("{}:client-panic({m})", IDS[j])),
+                Ok(TunnResult::WriteToTunnel(p)) => {
+                    if p.is_empty() {
+                        desc.push(format!("{}:keepalive", IDS[j]));
+                    } else {
+                        desc.push(format!("{}:payload({})", IDS[j], String::from_utf8_lossy(&p)));
+                        recipients.push((j, p.to_vec()));
+                    }
+                }
+                Ok(TunnResult::WriteToNetwork(reply)) => {
+                    if is_resp {
+                        resp_completed = true;
+                    }
+                    let rk = format!("{reply:?}");
+                    let _ = self.take_asked();
+                    let r = self.server_in(a, Packet::from(reply), q);
+                    let asked = self.take_asked();
+                    let rd = match r {
+                        SrvIn::Forwarded { plaintext, session } => {
+                            self.check_inbound_flow(out, a, j, None, &plaintext, &session, &asked);
+                            format!("Forwarded({})", String::from_utf8_lossy(&plaintext))
+                        }
+                        SrvIn::Other(s) => s,
+                        SrvIn::Panic(m) => {
+                            out.viol(format!("panic@{}", vpc::last_panic_location()), m.clone());
+                            format!("panic({m})")
+                        }
+                    };
+                    desc.push(format!("{}:reply {rk} -> server {rd} asked[{}]", IDS[j], self.asked_text(&asked)));
+                }
+                Ok(r) => desc.push(format!("{}:{}", IDS[j], tunn_err(&r))),
+            }
+        }
+        if !recipients.is_empty() {
+            self.check_outbound_flow(out, a, &recipients, sent, session);
+        }
+        (format!("{kind}=>[{}]", desc.join("; ")), resp_completed)
+    }
+
+    /// Drain the server's send queue for address `a` towards `targets`.
+    fn pump(&mut self, out: &mut StepOut, a: usize, targets: &[usize], q: &mut VecDeque<WgKind>) -> bool {
+        let mut completed = false;
+        let mut rounds = 0;
+        while let Some(p) = q.pop_front() {
+            rounds += 1;
+            if rounds > 16 {
+                out.diverged = Some("packet ping-pong did not settle in 16 rounds".into());
+                break;
+            }
+            let (d, c) = self.deliver(out, a, targets, p, q, None, None);
+            completed |= c;
+            out.obs.push(format!("net {d}"));
+        }
+        completed
+    }
+
+    // ----- the transition relation ------------------------------------------------------------
+
+    fn step(&mut self, ev: Ev) -> StepOut {
+        let mut out = StepOut::default();
+        let _ = self.take_asked();
+        match ev {
+            Ev::Reg { k, i, l } => {
+                let (class, had) = self.rf.reg(k, i, l);
+                let now = self.real_now();
+                let reg = &self.registry;
+                let id = self.c.id_pub[i];
+                match vpc::catch(|| reg.register(now, KEYS[k], id, Duration::from_secs(l as u64))) {
+                    Ok(was_new) => out.obs.push(format!("register -> was_new={was_new} (reference: {})", !had)),
+                    Err(m) => out.viol(format!("panic@{}", vpc::last_panic_location()), m),
+                }
+                out.classes.push(class.into());
+            }
+            Ev::Tick => {
+                self.rf.now += 1;
+                self.authz.clock.store(self.rf.now as u64, Ordering::SeqCst);
+                let lapsed = (0..3).filter(|i| self.rf.expiry.get(i) == Some(&self.rf.now)).count();
+                out.classes.push(if lapsed > 0 { "tick:registration-lapses" } else { "tick:no-lapse" }.into());
+            }
+            Ev::Purge => {
+                let n = self.rf.purge();
+                let now = self.real_now();
+                let reg = &self.registry;
+                if let Err(m) = vpc::catch(|| reg.remove_expired(now)) {
+                    out.viol(format!("panic@{}", vpc::last_panic_location()), m);
+                }
+                out.classes.push(if n > 0 { "purge:removes-expired" } else { "purge:nothing-expired" }.into());
+            }
+            Ev::Hs { a, i } => self.hs(&mut out, a, i),
+            Ev::In { a } => self.data_in(&mut out, a),
+            Ev::Out { a } => self.data_out(&mut out, a),
+            Ev::Timers => {
+                let server = &mut self.server;
+                match vpc::catch(|| server.update_timers()) {
+                    Err(m) => out.viol(format!("panic@{}", vpc::last_panic_location()), m),
+                    Ok(list) => {
+                        out.classes.push(if list.is_empty() { "timers:nothing-due" } else { "timers:emits-packets" }.into());
+                        for (addr, pkt) in list {
+                            let Some(a) = self.c.addrs.iter().position(|x| *x == addr) else { continue };
+                            let targets: Vec<usize> = (0..3).filter(|j| self.rf.client[a][*j] == 2).collect();
+                            let mut q = VecDeque::new();
+                            let (d, _) = self.deliver(&mut out, a, &targets, pkt, &mut q, None, None);
+                            out.obs.push(format!("timer-net {d}"));
+                            self.pump(&mut out, a, &targets, &mut q);
+                        }
+                    }
+                }
+            }
+        }
+        // registry conformance, after every step, for every identity
+        let now = self.real_now();
+        let mut av = String::new();
+        for i in 0..3 {
+            let reg = &self.registry;
+            let id = self.c.id_pub[i];
+            let real = match vpc::catch(|| reg.has_authorization(now, &id)) {
+                Ok(b) => b,
+                Err(m) => {
+                    out.viol(format!("panic@{}", vpc::last_panic_location()), m);
+                    continue;
+                }
+            };
+            let want = self.rf.auth(i);
+            av.push(if real { '1' } else { '0' });
+            if real != want {
+                let class = if real { format!("registry-authorises:{}", self.rf.why_unauth(i)) } else { "registry-refuses-live-registration".to_string() };
+                out.viol(class, format!("has_authorization(t={}, {}) = {real}, reference = {want} ({})", self.rf.now, IDS[i], self.rf.why_unauth(i)));
+            }
+        }
+        out.obs.push(format!("auth[ABC]={av}"));
+        out
+    }
+
+    fn hs(&mut self, out: &mut StepOut, a: usize, i: usize) {
+        let owner = self.rf.owner[a];
+        let predicted = match owner {
+            None => self.rf.auth(i),
+            Some(o) => o == i && self.rf.auth(o),
+        };
+        let client = self.client(a, i);
+        let init = match vpc::catch(|| client.format_handshake_initiation(true)) {
+            Ok(Some(p)) => p,
+            Ok(None) => {
+                out.diverged = Some("client produced no handshake initiation".into());
+                return;
+            }
+            Err(m) => {
+                out.diverged = Some(format!("client panicked: {m}"));
+                return;
+            }
+        };
+        let mut q = VecDeque::new();
+        let r = self.server_in(a, init.into_bytes(), &mut q);
+        let asked = self.take_asked();
+        let first = match r {
+            SrvIn::Forwarded { plaintext, session } => {
+                // a handshake message can never carry a payload
+                self.check_inbound_flow(out, a, i, None, &plaintext, &session, &asked);
+                "Forwarded?!".to_string()
+            }
+            SrvIn::Other(s) => s,
+            SrvIn::Panic(m) => {
+                out.viol(format!("panic@{}", vpc::last_panic_location()), m.clone());
+                format!("panic({m})")
+            }
+        };
+        out.obs.push(format!("init -> server {first} asked[{}] queued={}", self.asked_text(&asked), q.len()));
+        let completed = self.pump(out, a, &[i], &mut q);
+        let st = &mut self.rf.client[a][i];
+        if completed {
+            *st = 2;
+            if owner.is_none() {
+                self.rf.owner[a] = Some(i);
+            }
+        } else if *st == 0 {
+            *st = 1;
+        }
+        let class = match (completed, predicted, owner) {
+            (true, true, None) => "hs:completed-new-tunnel".to_string(),
+            (true, true, Some(_)) => "hs:completed-rehandshake".to_string(),
+            (true, false, _) => format!("hs:completed-UNPREDICTED(owner={},requester {})", owner.map_or("-", |o| IDS[o]), self.rf.why_unauth(i)),
+            (false, false, None) => "hs:refused-requester-unauthorised".to_string(),
+            (false, false, Some(o)) if o != i && !self.rf.auth(o) => "hs:refused-foreign-tunnel-owner-unauthorised".to_string(),
+            (false, false, Some(o)) if o != i => "hs:refused-foreign-tunnel".to_string(),
+            (false, false, Some(_)) => "hs:refused-owner-unauthorised".to_string(),
+            (false, true, _) => {
+                out.diverged = Some(format!("handshake refused although expected to complete: {first}"));
+                "hs:REFUSED-THOUGH-EXPECTED".to_string()
+            }
+        };
+        out.obs.push(format!("handshake completed={completed} (reference expectation: {predicted})"));
+        out.classes.push(class);
+    }
+
+    fn data_in(&mut self, out: &mut StepOut, a: usize) {
+        let senders: Vec<usize> = (0..3).filter(|j| self.rf.client[a][*j] == 2).collect();
+        for j in senders {
+            self.seq += 1;
+            let payload = format!("C09 inbound payload from identity {} at {} #{}", IDS[j], ADDRS[a], self.seq).into_bytes();
+            let client = self.clients[a][j].as_mut().expect("established client exists");
+            let ct = match vpc::catch(|| client.handle_outgoing_packet(Packet::copy_from(&payload[..]))) {
+                Ok(Some(WgKind::Data(d))) => d,
+                other => {
+                    out.diverged = Some(format!("established client did not encrypt: {:?}", other.map(|o| o.map(|k| format!("{k:?}")))));
+                    return;
+                }
+            };
+            let mut q = VecDeque::new();
+            let r = self.server_in(a, ct.into_bytes(), &mut q);
+            let asked = self.take_asked();
+            let authorised = self.rf.auth(j);
+            let class = match r {
+                SrvIn::Forwarded { plaintext, session } => {
+                    self.check_inbound_flow(out, a, j, Some(&payload), &plaintext, &session, &asked);
+                    out.obs.push(format!("in {} -> Forwarded tag={:?} session={} asked[{}]", IDS[j], String::from_utf8_lossy(&plaintext), self.c.label(&session), self.asked_text(&asked)));
+                    if authorised { "in:forwarded-authorised".to_string() } else { format!("in:FORWARDED-UNAUTHORISED({})", self.rf.why_unauth(j)) }
+                }
+                SrvIn::Other(s) => {
+                    out.obs.push(format!("in {} -> {s} asked[{}]", IDS[j], self.asked_text(&asked)));
+                    if authorised {
+                        // non-vacuity side: authorised + established session should flow
+                        format!("in:REFUSED-THOUGH-AUTHORISED({s})")
+                    } else {
+                        format!("in:refused-session-alive({})", self.rf.why_unauth(j))
+                    }
+                }
+                SrvIn::Panic(m) => {
+                    out.viol(format!("panic@{}", vpc::last_panic_location()), m);
+                    "in:panic".to_string()
+                }
+            };
+            out.classes.push(class);
+            self.pump(out, a, &[j], &mut q);
+        }
+    }
+
+    fn data_out(&mut self, out: &mut StepOut, a: usize) {
+        self.seq += 1;
+        let payload = format!("C09 outbound payload towards {} #{}", ADDRS[a], self.seq).into_bytes();
+        let to = self.c.addrs[a];
+        let server = &mut self.server;
+        let pkt = Packet::copy_from(&payload[..]);
+        let r = match vpc::catch(|| server.handle_outgoing_packet_with_session(pkt, to)) {
+            Ok(r) => r,
+            Err(m) => {
+                out.viol(format!("panic@{}", vpc::last_panic_location()), m);
+                return;
+            }
+        };
+        let asked = self.take_asked();
+        let owner = self.rf.owner[a];
+        let established: Vec<usize> = (0..3).filter(|j| self.rf.client[a][*j] == 2).collect();
+        let expect_flow = owner.is_some_and(|o| self.rf.auth(o) && self.rf.client[a][o] == 2);
+        let class = match r {
+            None => {
+                out.obs.push(format!("out -> None asked[{}]", self.asked_text(&asked)));
+                match owner {
+                    None => "out:no-tunnel".to_string(),
+                    Some(_) if expect_flow => "out:REFUSED-THOUGH-AUTHORISED".to_string(),
+                    Some(o) => format!("out:refused-session-alive({})", self.rf.why_unauth(o)),
+                }
+            }
+            Some(h) => {
+                let session = *h.session_data;
+                match h.network_packet {
+                    Some(k @ WgKind::Data(_)) => {
+                        let mut q = VecDeque::new();
+                        let before = out.viols.len();
+                        let (d, _) = self.deliver(out, a, &established, k, &mut q, Some(&payload), Some(&session));
+                        if !d.contains("payload(") {
+                            // ciphertext nobody could open: still judged by owner / named identity
+                            self.check_outbound_flow(out, a, &[], None, Some(&session));
+                        }
+                        out.obs.push(format!("out -> ciphertext session={} asked[{}] {d}", self.c.label(&session), self.asked_text(&asked)));
+                        self.pump(out, a, &established, &mut q);
+                        if out.viols.len() > before { "out:ENCRYPTED-UNAUTHORISED-OR-MISATTRIBUTED".to_string() } else { "out:encrypted-authorised".to_string() }
+                    }
+                    Some(k) => {
+                        out.obs.push(format!("out -> {k:?} session={}", self.c.label(&session)));
+                        out.diverged = Some("server started its own handshake (no current session); payload queued".into());
+                        "out:server-initiated-handshake".to_string()
+                    }
+                    None => {
+                        out.obs.push(format!("out -> admitted, queued session={}", self.c.label(&session)));
+                        out.diverged = Some("payload queued inside the server tunnel".into());
+                        "out:queued".to_string()
+                    }
+                }
+            }
+        };
+        out.classes.push(class);
+    }
+}
+
+// ---------------------------------------------------------------------------------------------
+// Replay of one history on fresh real objects
+// ---------------------------------------------------------------------------------------------
+
+struct Replayed {
+    prefix_key: String,
+    key: String,
+    /// reference client table after the history (decides which events are enabled next)
+    clients: [[u8; 3]; 2],
+    last: StepOut,
+    /// a prefix step diverged/was non-deterministic
+    prefix_problem: Option<String>,
+}
+
+fn replay(c: &Consts, hist: &[Ev]) -> Replayed {
+    let mut sys = Sys::new(c);
+    let mut prefix_problem = None;
+    let mut prefix_key = sys.rf.key();
+    let mut last = StepOut::default();
+    for (n, ev) in hist.iter().enumerate() {
+        if n + 1 == hist.len() {
+            prefix_key = sys.rf.key();
+        }
+        let out = sys.step(*ev);
+        if n + 1 < hist.len() {
+            if let Some(d) = &out.diverged {
+                prefix_problem.get_or_insert(format!("prefix step {} ({}) diverged: {d}", n + 1, ev.text()));
+            }
+        }
+        last = out;
+    }
+    Replayed { prefix_key, key: sys.rf.key(), clients: sys.rf.client, last, prefix_problem }
+}
+
+fn enabled(parent_key_clients: &[[u8; 3]; 2], ev: Ev) -> bool {
+    match ev {
+        // nothing to send without an established client on that address
+        Ev::In { a } => parent_key_clients[a].iter().any(|s| *s == 2),
+        _ => true,
+    }
+}
+
+// ---------------------------------------------------------------------------------------------
+// The exploration
+// ---------------------------------------------------------------------------------------------
+
+struct Node {
+    key: String,
+    hist: Vec<Ev>,
+    clients: [[u8; 3]; 2],
+    /// second, different history into an already known state (de-dup validation)
+    alt: bool,
+}
+
+struct Succ {
+    ev: Ev,
+    r: Replayed,
+}
+
+struct StateInfo {
+    succ_sig: Option<Vec<(String, u64)>>, // (event, hash of observation + successor key)
+    first_hist: Vec<Ev>,
+    has_alt: bool,
+}
+
 pub fn run(args: &vpc::Args) -> ! {
-    vpc::machinery_failure(&format!("property {} not implemented yet", args.prop))
+    vpc::quiet_panics();
+    let consts = Consts::new();
+    if let Some(file) = &args.replay {
+        replay_file(&consts, file);
+    }
+    let run = vpc::Run::new(args);
+    let mut depth: usize = run.tier.pick(5, 7);
+    let mut validate_dedup = true;
+    for x in &args.extra {
+        if let Some(d) = x.strip_prefix("--depth=") {
+            depth = d.parse().unwrap_or_else(|_| vpc::machinery_failure("bad --depth"));
+        }
+        if x == "--no-dedup-validation" {
+            validate_dedup = false;
+        }
+    }
+    let events = all_events();
+    let mut states: BTreeMap<String, StateInfo> = BTreeMap::new();
+    let root = Ref::new();
+    states.insert(root.key(), StateInfo { succ_sig: None, first_hist: vec![], has_alt: false });
+    let mut frontier = vec![Node { key: root.key(), hist: vec![], clients: root.client, alt: false }];
+    let (mut transitions, mut alt_transitions, mut histories) = (0u64, 0u64, 0u64);
+    let (mut cut, mut nondet, mut dedup_mismatch, mut dedup_checked) = (0u64, 0u64, 0u64, 0u64);
+    let mut per_depth = vec![];
+    let mut notes: Vec<Value> = vec![];
+    let mut tally: BTreeMap<String, u64> = BTreeMap::new();
+    let sample_classes = ["in:forwarded-authorised", "in:refused-session-alive(at-expiry-instant)", "in:refused-session-alive(superseded)", "out:refused-session-alive(superseded)", "out:encrypted-authorised", "hs:refused-owner-unauthorised", "hs:refused-foreign-tunnel", "reg:moves-key+supersedes"];
+
+    for d in 0..depth {
+        // quick tier: second-history validation stops one level early (the last level is ~40 % of
+        // the cost); thorough validates every revisited state that is expanded at all
+        if run.tier == vpc::Tier::Quick && d + 1 == depth {
+            frontier.retain(|n| !n.alt);
+        }
+        let expanded: Vec<Vec<Succ>> = frontier
+            .par_iter()
+            .map(|node| {
+                events
+                    .iter()
+                    .filter(|ev| enabled(&node.clients, **ev))
+                    .map(|ev| {
+                        let mut h = node.hist.clone();
+                        h.push(*ev);
+                        let r = replay(&consts, &h);
+                        Succ { ev: *ev, r }
+                    })
+                    .collect()
+            })
+            .collect();
+
+        // sequential, deterministic post-processing in frontier order
+        let mut next = vec![];
+        for (node, succs) in frontier.iter().zip(expanded) {
+            let mut sig = vec![];
+            for s in succs {
+                histories += 1;
+                if node.alt {
+                    alt_transitions += 1;
+                } else {
+                    transitions += 1;
+                }
+                let mut h = node.hist.clone();
+                h.push(s.ev);
+                if s.r.prefix_problem.is_some() || s.r.prefix_key != node.key {
+                    nondet += 1;
+                    if notes.len() < 10 {
+                        notes.push(json!({"kind": "replay-not-reproducible", "history": hist_text(&h), "expected_prefix_state": node.key, "got": s.r.prefix_key, "problem": s.r.prefix_problem}));
+                    }
+                    continue;
+                }
+                sig.push((s.ev.text(), vpc::fnv64(format!("{} => {}", s.r.last.obs.join(" / "), s.r.key).as_bytes())));
+                if !node.alt {
+                    for c in &s.r.last.classes {
+                        run.outcome(c);
+                        *tally.entry(c.clone()).or_default() += 1;
+                    }
+                    if s.r.last.classes.iter().any(|c| sample_classes.contains(&c.as_str()) && tally[c] == 1) {
+                        run.sample(sample_classes.len(), || json!({"history": hist_text(&h), "class": s.r.last.classes, "observed_last_step": s.r.last.obs, "state_after": s.r.key}));
+                    }
+                }
+                for (class, what) in &s.r.last.viols {
+                    run.violation(class, what, json!({"history": hist_text(&h), "violating_step": h.len(), "observed_last_step": s.r.last.obs, "state_before": node.key, "state_after": s.r.key}));
+                }
+                if let Some(why) = &s.r.last.diverged {
+                    cut += 1;
+                    if notes.len() < 10 {
+                        notes.push(json!({"kind": "branch-cut", "history": hist_text(&h), "why": why}));
+                    }
+                    continue;
+                }
+                match states.get_mut(&s.r.key) {
+                    None => {
+                        states.insert(s.r.key.clone(), StateInfo { succ_sig: None, first_hist: h.clone(), has_alt: false });
+                        next.push(Node { key: s.r.key, hist: h, clients: s.r.clients, alt: false });
+                    }
+                    Some(info) => {
+                        if validate_dedup && !info.has_alt && info.first_hist != h && s.r.key != node.key {
+                            info.has_alt = true;
+                            next.push(Node { key: s.r.key, hist: h, clients: s.r.clients, alt: true });
+                        }
+                    }
+                }
+            }
+            let info = states.get_mut(&node.key).expect("frontier node is a known state");
+            if node.alt {
+                if let Some(primary) = &info.succ_sig {
+                    dedup_checked += 1;
+                    if *primary != sig {
+                        dedup_mismatch += 1;
+                        if notes.len() < 10 {
+                            let diff: Vec<&String> = primary.iter().zip(&sig).filter(|(p, q)| p != q).map(|(p, _)| &p.0).collect();
+                            notes.push(json!({"kind": "state-key-not-behavioural", "state": node.key, "history_1": hist_text(&info.first_hist), "history_2": hist_text(&node.hist), "events_that_differ": diff}));
+                        }
+                    }
+                }
+            } else {
+                info.succ_sig = Some(sig);
+            }
+        }
+        per_depth.push(json!({"depth": d + 1, "new_states": next.iter().filter(|n| !n.alt).count(), "states_total": states.len(), "histories_executed_so_far": histories}));
+        eprintln!("[C09] depth {} done: states={} frontier={} histories={} t={:.1}s", d + 1, states.len(), next.len(), histories, run.elapsed_s());
+        frontier = next;
+    }
+
+    let forwarded = ["in:forwarded-authorised", "out:encrypted-authorised", "in:refused-session-alive(at-expiry-instant)", "in:refused-session-alive(superseded)"];
+    let liveness_misses: u64 = tally.iter().filter(|(k, _)| k.contains("REFUSED-THOUGH")).map(|(_, n)| *n).sum();
+    let exhaustive = cut == 0 && nondet == 0 && dedup_mismatch == 0;
+    let coverage = json!({
+        "states": states.len(),
+        "transitions": transitions,
+        "dedup_validation_transitions": alt_transitions,
+        "traces_validated_against_impl": histories,
+        "exhaustive": exhaustive,
+        "bound": format!("all histories of length <= {depth} over 25 events (Reg 2 keys x 3 identities x lifetimes {{1,3}}, Tick, Purge, Hs 2 addresses x 3 identities, In x2, Out x2, Timers), BFS with canonical-state de-duplication; every history replayed on fresh real SnapTunServer + IdentityRegistry + Tunn clients"),
+        "per_depth": per_depth,
+        "branches_cut_unexpected_refusal": cut,
+        "replays_not_reproducible": nondet,
+        "dedup_validation": {"states_expanded_from_a_second_history": dedup_checked, "successor_signature_mismatches": dedup_mismatch},
+        "notes": notes,
+        "required_outcome_classes": forwarded,
+        "authorised_and_established_but_refused": liveness_misses,
+    });
+    // a run in which nothing ever flowed, or no revocation with a live session was ever seen,
+    // proves nothing: that is a machinery failure, not a pass
+    if liveness_misses > 0 {
+        println!("NOTE C09: {liveness_misses} transitions refused traffic of an authorised identity with an established session (not a C09 violation; see observed_outcomes *REFUSED-THOUGH-AUTHORISED*)");
+    }
+    if run.violation_count() == 0 && depth >= 4 {
+        let have = |c: &str| -> bool { tally.get(c).copied().unwrap_or(0) > 0 };
+        for c in forwarded {
+            if !have(c) {
+                vpc::machinery_failure(&format!("C09 exploration is vacuous: outcome class {c} never observed"));
+            }
+        }
+        if dedup_mismatch > 0 {
+            vpc::machinery_failure(&format!("C09 state key is not behavioural: {dedup_mismatch} states behaved differently when reached by a second history (see notes)"));
+        }
+    }
+    run.finish(
+        "model_checking",
+        coverage,
+        &[
+            "the authorization adapter stands in for the 3-line `impl SnapTunAuthorization for IdentityRegistry`: it calls that very impl, with base + logical clock in place of the Instant::now() the server passes",
+            "each registry operation is one atomic ArcSwap load/store with writers serialised by a mutex, so the sequential interleavings explored are its linearisations; arc_swap itself is trusted",
+            "WireGuard real-time behaviour (rekey after 120 s, session expiry after 180 s, keepalive after 10 s, cookie/rate limiting under load) is not explored: replays take milliseconds and use a fresh server and rate limiter each",
+            "canonical key = reference registry (key->identity, identity->remaining lifetime) + per address tunnel owner and per (address,identity) client state; validated by expanding every revisited state from a second history and comparing all successor observations",
+        ],
+    );
+}
+
+fn replay_file(c: &Consts, file: &std::path::Path) -> ! {
+    let v = vpc::read_replay(file);
+    let w = v.get("witness").unwrap_or(&v);
+    let hist: Vec<Ev> = w
+        .get("history")
+        .and_then(|h| h.as_array())
+        .unwrap_or_else(|| vpc::machinery_failure("replay file has no witness.history"))
+        .iter()
+        .map(|s| Ev::parse(s.as_str().unwrap_or("")).unwrap_or_else(|| vpc::machinery_failure(&format!("bad event {s}"))))
+        .collect();
+    println!("replaying {} events on fresh real objects: {}", hist.len(), hist_text(&hist).join(", "));
+    // every prefix is judged, not only the last step
+    let mut nviol = 0;
+    let mut sys = Sys::new(c);
+    for (n, ev) in hist.iter().enumerate() {
+        let out = sys.step(*ev);
+        println!("step {:>2}  {:<12} t={}  {}", n + 1, ev.text(), sys.rf.now, out.classes.join(" "));
+        for o in &out.obs {
+            println!("           . {o}");
+        }
+        for (cl, what) in &out.viols {
+            nviol += 1;
+            println!("           ! VIOLATION [{cl}] {what}");
+        }
+        if let Some(d) = &out.diverged {
+            println!("           ~ branch cut here during exploration: {d}");
+        }
+        println!("           state: {}", sys.rf.key());
+    }
+    println!("replay finished: {nviol} violation(s) reproduced");
+    std::process::exit(if nviol > 0 { 1 } else { 0 })
 }
